@@ -25,6 +25,7 @@
 #include "llvm/Support/JSON.h"
 #include "llvm/Support/raw_ostream.h"
 
+#include <functional>
 #include <map>
 #include <set>
 #include <string>
@@ -61,6 +62,17 @@ struct Extractor {
   }
 
   std::string ty(QualType T) { return T.getAsString(PP); }
+
+  // name of a record; anonymous members take the name of the nearest named enclosing record
+  std::string recName(const RecordDecl *RD) {
+    while (RD) {
+      std::string N = RD->getNameAsString();
+      if (N.empty()) if (auto *TD = RD->getTypedefNameForAnonDecl()) N = TD->getNameAsString();
+      if (!N.empty()) return N;
+      RD = dyn_cast_or_null<RecordDecl>(RD->getParent());
+    }
+    return "";
+  }
 
   std::string fileOf(SourceLocation L) {
     L = SM.getExpansionLoc(L);
@@ -209,19 +221,33 @@ struct Extractor {
       return std::move(O);
     }
     if (auto *M = dyn_cast<MemberExpr>(S)) {
-      json::Object O{{"k", "mem"}, {"f", M->getMemberDecl()->getNameAsString()}, {"arrow", M->isArrow()}};
+      // members of anonymous structs/unions: collapse the implicit accesses, so that
+      // `x->visible_child_count` is one node whose record is the nearest *named* record
+      const Expr *Base = M->getBase();
+      bool Arrow = M->isArrow();
+      if (auto *FD0 = dyn_cast<FieldDecl>(M->getMemberDecl())) {
+        if (FD0->isAnonymousStructOrUnion()) return E(Base);  // never the outermost node in practice
+      }
+      while (true) {
+        const Expr *B2 = Base->IgnoreParenImpCasts();
+        auto *BM = dyn_cast<MemberExpr>(B2);
+        if (!BM) break;
+        auto *BF = dyn_cast<FieldDecl>(BM->getMemberDecl());
+        if (!BF || !BF->isAnonymousStructOrUnion()) break;
+        Arrow = BM->isArrow();
+        Base = BM->getBase();
+      }
+      json::Object O{{"k", "mem"}, {"f", M->getMemberDecl()->getNameAsString()}, {"arrow", Arrow}};
       if (auto *FD = dyn_cast<FieldDecl>(M->getMemberDecl())) {
         const RecordDecl *RD = FD->getParent();
-        std::string RN = RD->getNameAsString();
-        if (RN.empty()) if (auto *TD = RD->getTypedefNameForAnonDecl()) RN = TD->getNameAsString();
-        O["rec"] = RN;
+        O["rec"] = recName(RD);
         O["fid"] = idOf(FD);
       }
-      QualType BT = M->getBase()->IgnoreParenImpCasts()->getType();
-      if (M->isArrow() && BT->isPointerType()) BT = BT->getPointeeType();
+      QualType BT = Base->IgnoreParenImpCasts()->getType();
+      if (Arrow && BT->isPointerType()) BT = BT->getPointeeType();
       O["bt"] = ty(BT.getUnqualifiedType());
       O["t"] = ty(M->getType());
-      O["b"] = E(M->getBase());
+      O["b"] = E(Base);
       return std::move(O);
     }
     if (auto *A = dyn_cast<ArraySubscriptExpr>(S)) {
@@ -467,17 +493,25 @@ struct Extractor {
     R["file"] = relFile(RD->getLocation());
     R["line"] = (int64_t)lineOf(RD->getLocation());
     json::Array Fs;
-    for (const FieldDecl *FD : RD->fields()) {
-      json::Object O{{"name", FD->getNameAsString()}, {"t", ty(FD->getType())}, {"fid", idOf(FD)}};
-      if (auto *CAT = Ctx.getAsConstantArrayType(FD->getType())) O["bound"] = (int64_t)CAT->getSize().getZExtValue();
-      if (FD->isBitField()) O["bits"] = (int64_t)FD->getBitWidthValue(Ctx);
-      if (FD->getType()->isIntegralOrEnumerationType()) {
-        O["intbits"] = (int64_t)Ctx.getTypeSize(FD->getType());
-        O["signed"] = FD->getType()->isSignedIntegerOrEnumerationType();
+    std::function<void(const RecordDecl *, bool)> Add = [&](const RecordDecl *R2, bool InUnion) {
+      for (const FieldDecl *FD : R2->fields()) {
+        if (FD->isAnonymousStructOrUnion()) {
+          if (const RecordType *RT = FD->getType()->getAs<RecordType>()) Add(RT->getDecl(), InUnion || RT->getDecl()->isUnion());
+          continue;
+        }
+        json::Object O{{"name", FD->getNameAsString()}, {"t", ty(FD->getType())}, {"fid", idOf(FD)}};
+        if (auto *CAT = Ctx.getAsConstantArrayType(FD->getType())) O["bound"] = (int64_t)CAT->getSize().getZExtValue();
+        if (FD->isBitField()) O["bits"] = (int64_t)FD->getBitWidthValue(Ctx);
+        if (FD->getType()->isIntegralOrEnumerationType()) {
+          O["intbits"] = (int64_t)Ctx.getTypeSize(FD->getType());
+          O["signed"] = FD->getType()->isSignedIntegerOrEnumerationType();
+        }
+        if (FD->getType()->isPointerType()) O["ptr"] = true;
+        if (InUnion) O["in_union"] = true;
+        Fs.push_back(std::move(O));
       }
-      if (FD->getType()->isPointerType()) O["ptr"] = true;
-      Fs.push_back(std::move(O));
-    }
+    };
+    Add(RD, RD->isUnion());
     R["fields"] = std::move(Fs);
     return R;
   }
@@ -502,7 +536,7 @@ public:
       bool VisitTypedefNameDecl(TypedefNameDecl *D) { Tds.push_back(D); return true; }
     } Vis;
     Vis.TraverseDecl(Ctx.getTranslationUnitDecl());
-    for (auto *RD : Vis.Records) if (X.inRoot(RD->getLocation())) Recs.push_back(X.record(RD));
+    for (auto *RD : Vis.Records) if (X.inRoot(RD->getLocation()) && !RD->isAnonymousStructOrUnion()) Recs.push_back(X.record(RD));
     for (auto *ED : Vis.EnumsV) {
       if (!X.inRoot(ED->getLocation())) continue;
       json::Object O;
